@@ -70,7 +70,8 @@ Expect(c, m, raw, hasq, q) ==
             THEN Derived(301, RStrip(p, SLASH) \o QAppend(hasq, q)) ELSE NoRedirect
       [] c.kind = "addslash" ->
             IF ~EndsWith(p, <<SLASH>>) THEN Derived(301, p \o <<SLASH>> \o QAppend(hasq, q)) ELSE NoRedirect
-      [] c.kind \in {"static1", "static2"} -> [mode |-> "ifredirect", st |-> 301, loc |-> p \o <<SLASH>>]
+      [] c.kind \in {"static1", "static2"} ->       \* locsafe: TLC's verdict on loc, so that the replayer can compare
+            [mode |-> "ifredirect", st |-> 301, loc |-> p \o <<SLASH>>, locsafe |-> Safe(p \o <<SLASH>>)]
       [] c.kind \in {"auth_rel", "auth_query"} ->
             Exact(302, IF c.kind = "auth_query" THEN Login(c.kind)
                        ELSE Login(c.kind) \o Txt_next \o QuotePlus(Uri(raw, hasq, q)))
